@@ -309,6 +309,28 @@ def scan_assumptions(job):
     return found
 
 
+def _dimension_counts(job):
+    """how many members of the family each added dimension contributes (read off the members' notes)"""
+    keys = [("uniform u8 twin", "uniform-u8 twins"), ("explicit bound twin", "explicit `bound` twins"), ("Adv-typed twin", "adversarial-type twins"),
+            ("placement", "attribute placement"), ("spelling", "spelling"), ("exotic generics", "exotic generics"), ("ignore+method", "ignore+method"),
+            ("wide", "wide shapes"), ("same-typed fields", "hostile same-typed names"), ("packed", "packed"), ("layout enum", "layout enums"),
+            ("parameter order", "parameter order"), ("structured", "C15 structured"), ("Deref/DerefMut markers", "C15 Deref"), ("258-variant", "more than 256 variants")]
+    out = {}
+    base = 0
+    for P in job.fam.programs.values():
+        if P.canary_of is not None:
+            continue
+        hit = False
+        for k, label in keys:
+            if k in (P.note or ""):
+                out[label] = out.get(label, 0) + 1
+                hit = True
+        if not hit:
+            base += 1
+    out["base grid"] = base
+    return out
+
+
 def write_evidence(job, spec, a, t0, violations=(), undecided=(), known_hit=(), n_canary_fail=0, base_note=None, fatal=None):
     os.makedirs(os.path.join(HERE, "evidence"), exist_ok=True)
     res = job.results
@@ -340,7 +362,8 @@ def write_evidence(job, spec, a, t0, violations=(), undecided=(), known_hit=(), 
         "programs_dropped_undecided": dict(job.fam.dropped, **{k: v for k, v in getattr(job, "verus_only_rejected", job.verus_rejected).items()}),
         "verus_front_end_rejected_but_decided_by_kani": {k: runlib._short(v, 200) for k, v in getattr(job, "verus_rejected_kani_ok", {}).items()},
         "exhaustive": False,
-        "family": {"tier": job.tier, "seed": job.seed, "bounds": spec.get("bounds", {}).get(job.tier, "")},
+        "family": {"tier": job.tier, "seed": job.seed, "bounds": spec.get("bounds", {}).get(job.tier, ""),
+                   "members_by_dimension": _dimension_counts(job)},
         "engines": {"verus": dict(job.stats["verus"], version=_ver("verus")), "kani": dict(job.stats["kani"], version=_ver("kani"))},
         "by_engine": {k: {"obligations": v[0], "discharged": v[1]} for k, v in by_engine.items()},
         "functions_under_contract": len(fns),
